@@ -202,8 +202,10 @@ class BaseInput(BasePort):
 
         # If there is a message pending, return it right away.
         with self._lock:
-            if self._messages:
+            try:
                 return self._messages.popleft()
+            except IndexError:
+                pass
 
         if self.closed:
             if block:
@@ -217,9 +219,12 @@ class BaseInput(BasePort):
                 if msg:
                     return msg
 
-                if self._messages:
+                try:
                     return self._messages.popleft()
-                elif not block:
+                except IndexError:
+                    pass
+
+                if not block:
                     return None
                 elif self.closed:
                     raise OSError('port closed during receive()')
